@@ -393,3 +393,455 @@ Example C17_near_example :
   near 1000 (1000 + (1 # 100000000)) 20 (1 # 1000000000000) = N_inside /\
   near 1000 1001 20 (1 # 1000000000000) = N_outside.
 Proof. vm_compute. split; reflexivity. Qed.
+
+(* ================= the comparator check_C17 is sound ================= *)
+(* (helper hI-c17p; proofs in Proofs/CheckC17Base.v, CheckC17Lin.v, CheckC17Log.v, CheckC17Win.v, CheckC17.v;
+   everything below is over Z/Q/lists and closed under the global context)
+   WHAT AN ACCEPTED CASE LINE MEANS.  If check_C17 returns verdict code 0 (ok) or 1 (borderline) then the
+   line is 17 :: kind :: rest, [rest] is decoded TO ITS END by the parser of the kind into a case cs, and
+   the case predicate holds:
+   kind 0 (FindLevel; the code is always 0): fl_spec - for a count table that is non-increasing on the
+     level window the observed pair is (1, THE lowest level of the window whose count is at most Max) or
+     (0, 0) and Max < 1 or no level of the window fits; (0, 0) when MinLevel > MaxLevel; for any table
+     the pair is the result of the model's search;
+   kind 1 (Linear): linear_case_ok (code 0) / linear_case_borderline (code 1);
+   kind 2 (Log): the domain is one NewLog returns, and log_case_ok / log_case_borderline.
+   The predicates of kinds 1 and 2 are unfolded in C17_check_meaning_scales. *)
+From Coq Require Import Qround.
+From MM Require Import Proofs.CheckBase Proofs.CheckC17Base Proofs.CheckC17Parse Proofs.CheckC17Lin Proofs.CheckC17Log Proofs.CheckC17Win Proofs.CheckC17WinLog Proofs.CheckC17WinCase Proofs.CheckC17WinCaseLog Proofs.CheckC17.
+Section CheckSound.
+Local Open Scope Z_scope.
+Local Open Scope Q_scope.
+
+Theorem C17_check_ok_sound :
+  (forall line cd tag pos diag,
+     check_C17 line = verdict cd tag pos diag -> (cd = 0 \/ cd = 1)%Z ->
+     exists cs rest, parse_C17 line = Some cs /\
+       line = (17 :: (match cs with CFind _ => 0 | CLin _ => 1 | CLog _ => 2 end) :: rest)%Z /\
+       match cs with
+       | CFind c => p_flcase rest = Some (c, []) /\ flcase_layout c rest
+       | CLin c => p_sccase rest = Some (c, []) /\ sccase_layout c rest
+       | CLog c => p_sccase rest = Some (c, []) /\ sccase_layout c rest /\ log_pre (sc_base c) (sc_mn c) (sc_mx c) = true
+       end /\
+       case_ok cd cs) /\
+  (forall (cd : Z) (cs : c17case), case_ok cd cs <->
+   (match cs with
+    | CFind c => cd = 0 /\ fl_spec c
+    | CLin c => (cd = 0 -> linear_case_ok c) /\ (cd = 1 -> linear_case_borderline c)
+    | CLog c => log_domain (sc_base c) (sc_mn c) (sc_mx c) /\ (cd = 0 -> log_case_ok c) /\ (cd = 1 -> log_case_borderline c)
+    end)%Z) /\
+  (forall (base : Z) (mn mx : Q), log_domain base mn mx <->
+   (2 <= base /\ (mn <= mx)%Q /\ (0 < mn * mx)%Q)%Z) /\
+  (forall (c : flcase), fl_spec c <->
+   (let o := fc_o c in let cnt := fc_cnt c in
+    (level_bounds o = None -> fc_ok c = 0 /\ fc_lev c = 0) /\
+    (forall lo hi, level_bounds o = Some (lo, hi) -> nonincreasing cnt lo hi ->
+    (fc_ok c = 1 /\ lo <= fc_lev c <= hi /\ cnt (fc_lev c) <= o_max o /\ 1 <= o_max o /\
+    forall l', lo <= l' < fc_lev c -> o_max o < cnt l') \/
+    (fc_ok c = 0 /\ fc_lev c = 0 /\ (o_max o < 1 \/ forall l, lo <= l <= hi -> o_max o < cnt l))) /\
+    (* any table, monotone or not: the model's search *)
+    match find_level o cnt (fc_guess c) with
+    | FL_ok l => fc_ok c = 1 /\ fc_lev c = l | FL_fail => fc_ok c = 0 /\ fc_lev c = 0 | FL_fuel => False end)%Z) /\
+  (forall (tol : Q -> Q) (exp : list Q) (obs : list xreal), obs_close tol exp obs <->
+   (Forall2 (fun e o => exists q, o = XFin q /\ (Qabs (q - e) <= tol e)%Q) exp obs)%Z) /\
+  (forall (c : flcase) (rest : list Z), flcase_layout c rest <->
+   (rest = [o_max (fc_o c); o_minlevel (fc_o c); o_maxlevel (fc_o c); fc_guess c; fc_wlo c; Z.of_nat (length (fc_vs c))]
+    ++ fc_vs c ++ [fc_left c; fc_right c; fc_ok c; fc_lev c])%Z) /\
+  (forall (c : sccase) (rest : list Z), sccase_layout c rest <->
+   (let ob := sc_ob c in
+    exists bmn bmx major minor levws bnmin bnmax bm0 bm1 bnmin2 bnmax2 major3,
+    rest = [sc_base c; bmn; bmx; o_max (sc_o c); o_minlevel (sc_o c); o_maxlevel (sc_o c); so_st ob]
+    ++ (Z.of_nat (length major) :: major) ++ (Z.of_nat (length minor) :: minor)
+    ++ (Z.of_nat (length (so_levels ob)) :: concat levws)
+    ++ [o_max (so_no ob); o_minlevel (so_no ob); o_maxlevel (so_no ob); so_nst ob; bnmin; bnmax; bm0; bm1; so_nst2 ob; bnmin2; bnmax2; so_st3 ob]
+    ++ (Z.of_nat (length major3) :: major3) /\
+    decode_bits bmn = XFin (sc_mn c) /\ decode_bits bmx = XFin (sc_mx c) /\
+    so_major ob = map decode_bits major /\ so_minor ob = map decode_bits minor /\
+    Forall2 lev_layout (so_levels ob) levws /\
+    so_nmin ob = decode_bits bnmin /\ so_nmax ob = decode_bits bnmax /\ so_map0 ob = decode_bits bm0 /\ so_map1 ob = decode_bits bm1 /\
+    so_nmin2 ob = decode_bits bnmin2 /\ so_nmax2 ob = decode_bits bnmax2 /\ so_major3 ob = map decode_bits major3)%Z) /\
+  (forall (lv : levobs) (w : list Z), lev_layout lv w <->
+   (exists bs, w = lv_level lv :: lv_count lv :: lv_st lv :: Z.of_nat (length bs) :: bs /\ lv_ticks lv = map decode_bits bs)%Z).
+Proof. exact check_ok_sound_full. Qed.
+Print Assumptions C17_check_ok_sound.
+
+(* THE CASE PREDICATES OF THE SCALE KINDS, UNFOLDED.  A predicate is built from groups; a group has an
+   exact comparison E (a boolean of the check), an admissible-set comparison A and the reading P of E
+   stated on the observed numbers.  Code 0 (G_exact, L_exact): every P holds.  Code 1 (G_border,
+   L_border): every group satisfies P or failed E and passed A (the model's outcome for one of the
+   admissible roundings, Check/C17.v), no group is a mismatch; the groups without a fallback (35 never
+   shrinks, 43 Map, statuses) hold as for code 0; a law on observed values (21, 40, 41, 45) may fail only
+   when the group it depends on is itself not exact.
+   Linear (spacing = lin_spacing, C17_linear_spacing): lin_ticks_spec - Ticks returns status 0 and: nothing
+   for Max <= 0; [Min] twice for a degenerate domain; else, on the ordered domain, major within tolerance
+   of THE ascending list of ALL integer multiples of the spacing inside the domain widened by 1e-10 of its
+   width (lin_level_list) at the LOWEST level of the window with at most Max such multiples, minor the
+   same one level below, and no ticks exactly when no level of the window fits.  lin_level_spec - with c
+   the length of that list: CountTicks(l) = c up to 1000 ticks (within 2 + 1e-9 c of min(c, maxInt) beyond:
+   the count is formed in float64), and TicksAtLevel(l) has status 0 and exactly c ticks, each within
+   tolerance of the list (or status 3 = not called by the harness, no ticks: only where c > 1000).
+   lin_nice_spec - the observed new ends are finite and within tolerance of x, y with: x <= smn, smx <= y
+   (never shrinks; [smn, smx] the ordered domain, a degenerate one widened by 1/2), at THE lowest level
+   whose rounded-out count is at most Max (lin_nice_level) each end moved by less than one spacing onto a
+   multiple of it or not at all, and the domain unchanged when no level fits.  Laws on the observed numbers:
+   21 counts non-increasing, 35 new ends outside the old, 36/37 Ticks and Nice again on the OBSERVED new
+   domain, 40 second Nice leaves it (Max >= 3), 41 first/last major tick = new ends, 43 Map = 0 / 1,
+   45 each end moved by at most one observed tick distance.
+   Log: the same structure with log_level_ok (l >= 0: THE ascending list of the powers Base^(k 2^l) with
+   an admitted exponent, negated and reversed on a negative domain, count = its length; l < 0: count
+   maxInt), log_nice_spec (never shrinks; unchanged when degenerate or no level fits; on a positive domain
+   each new end is the old one or a power of the base that is a positive finite float64). *)
+Theorem C17_check_meaning_scales :
+  (forall (c : sccase), linear_case_ok c <->
+   (linear_case_gen G_exact L_exact c)%Q) /\
+  (forall (c : sccase), linear_case_borderline c <->
+   (linear_case_gen G_border L_border c)%Q) /\
+  (forall (G : bool -> bool -> Prop -> Prop) (Lw : bool -> Prop -> Prop) (c : sccase), linear_case_gen G Lw c <->
+   (match lin_ebase (sc_base c) with None => lin_badbase_ok c | Some eb => linear_some_gen G Lw c eb end)%Q) /\
+  (forall (E A : bool) (P : Prop), G_exact E A P <->
+   (P)%Q) /\
+  (forall (amb : bool) (P : Prop), L_exact amb P <->
+   (P)%Q) /\
+  (forall (E A : bool) (P : Prop), G_border E A P <->
+   (P \/ (E = false /\ A = true))%Q) /\
+  (forall (amb : bool) (P : Prop), L_border amb P <->
+   (P \/ amb = true)%Q) /\
+  (forall (c : sccase), lin_badbase_ok c <->
+   (let ob := sc_ob c in
+    so_st ob = (if (o_max (sc_o c) <=? 0)%Z || Qeqb (sc_mn c) (sc_mx c) then 0 else 2)%Z /\
+    so_nst ob = 2%Z /\ so_nst2 ob = 2%Z /\
+    so_st3 ob = (if (o_max (so_no ob) <=? 0)%Z then 0 else 2)%Z)%Q) /\
+  (forall (G : bool -> bool -> Prop -> Prop) (Lw : bool -> Prop -> Prop) (c : sccase) (eb : Z), linear_some_gen G Lw c eb <->
+   (let ob := sc_ob c in let base := sc_base c in let mn := sc_mn c in let mx := sc_mx c in
+    let o := sc_o c in let no := so_no ob in let tolv := lc_tolv c in
+    exists ao bo, so_nmin ob = XFin ao /\ so_nmax ob = XFin bo /\
+    let E20 := forallb (lin_level_exact base eb mn mx tolv) (so_levels ob) in
+    let E30 := lin_nice_E tolv no base eb mn mx (so_nst ob) (XFin ao) (XFin bo) in
+    let E36 := lin_ticks_E tolv no base eb ao bo (so_st3 ob) (so_major3 ob) None in
+    let E37 := lin_nice_E tolv no base eb ao bo (so_nst2 ob) (so_nmin2 ob) (so_nmax2 ob) in
+    let bl := negb E30 || negb E36 || negb E37 in
+    let rep := lin_nice_rep_spec base eb no (fst (lin_start mn mx)) (snd (lin_start mn mx)) in
+    (* 10: Ticks(o) *)
+    G (lin_ticks_E tolv o base eb mn mx (so_st ob) (so_major ob) (Some (so_minor ob)))
+    (lin_ticks_A tolv o base eb mn mx (so_st ob) (so_major ob) (Some (so_minor ob)))
+    (lin_ticks_spec tolv base eb o mn mx (so_st ob) (so_major ob) (Some (so_minor ob))) /\
+    (* 20: CountTicks(l), TicksAtLevel(l) for every recorded level *)
+    G E20 (forallb (fun lv => lin_level_exact base eb mn mx tolv lv || lin_level_adm base eb mn mx tolv lv) (so_levels ob))
+    (mn <= mx -> Forall (lin_level_spec tolv base eb mn mx) (so_levels ob)) /\
+    (* 21: the observed counts are non-increasing along ascending levels *)
+    Lw (negb E20) (forall l1 a b l2, so_levels ob = l1 ++ a :: b :: l2 -> (lv_level a <= lv_level b)%Z -> (lv_count b <= lv_count a)%Z) /\
+    (* 30: Nice(o') *)
+    G E30 (lin_nice_A tolv no base eb mn mx (so_nst ob) (XFin ao) (XFin bo))
+    (lin_nice_spec tolv base eb no mn mx (so_nst ob) (XFin ao) (XFin bo)) /\
+    (* 35: the observed new ends do not shrink the (ordered) domain *)
+    (ao <= fst (lin_order mn mx) /\ snd (lin_order mn mx) <= bo) /\
+    (* 36: Ticks(o') after Nice, on the observed new domain *)
+    G E36 (lin_ticks_A tolv no base eb ao bo (so_st3 ob) (so_major3 ob) None)
+    (lin_ticks_spec tolv base eb no ao bo (so_st3 ob) (so_major3 ob) None) /\
+    (* 37: Nice(o') once more, on the observed new domain *)
+    G E37 (lin_nice_A tolv no base eb ao bo (so_nst2 ob) (so_nmin2 ob) (so_nmax2 ob))
+    (lin_nice_spec tolv base eb no ao bo (so_nst2 ob) (so_nmin2 ob) (so_nmax2 ob)) /\
+    (* 40: idempotent for Max >= 3 *)
+    Lw bl ((3 <= o_max no)%Z -> so_nst2 ob = 0%Z /\ exists a2 b2, so_nmin2 ob = XFin a2 /\ so_nmax2 ob = XFin b2 /\
+    Qabs (a2 - ao) <= tolv ao /\ Qabs (b2 - bo) <= tolv bo) /\
+    (* 41: first and last major tick after Nice are the new ends (Max >= 3, Nice found a level whose two candidate ends are finite float64) *)
+    Lw bl ((3 <= o_max no)%Z -> rep -> exists f rest t0 tl, so_major3 ob = f :: rest /\ f = XFin t0 /\ last (so_major3 ob) f = XFin tl /\
+    Qabs (t0 - ao) <= tolv ao /\ Qabs (tl - bo) <= tolv bo) /\
+    (* 43: Map(new Min) = 0, Map(new Max) = 1 *)
+    (~ ao == bo -> exists p q, so_map0 ob = XFin p /\ so_map1 ob = XFin q /\ Qabs p <= e12 /\ Qabs (q - 1) <= e12) /\
+    (* 45: each end moved by at most one observed major tick spacing (Max >= 3, Nice found a level whose two candidate ends are finite float64) *)
+    Lw bl ((3 <= o_max no)%Z -> rep -> exists t0 t1 rest u1 u0 rest',
+    so_major3 ob = XFin t0 :: XFin t1 :: rest /\ rev (so_major3 ob) = XFin u1 :: XFin u0 :: rest' /\
+    fst (lin_start mn mx) - ao <= t1 - t0 + tolv ao /\ bo - snd (lin_start mn mx) <= u1 - u0 + tolv bo))%Q) /\
+  (forall (tolv : Q -> Q) (base eb : Z) (o : tickopts) (mn mx : Q) (st : Z) (major : list xreal) (minor : option (list xreal)), lin_ticks_spec tolv base eb o mn mx st major minor <->
+   (st = 0%Z /\
+    let a := fst (lin_order mn mx) in let b := snd (lin_order mn mx) in
+    let none := major = [] /\ (forall m, minor = Some m -> m = []) in
+    ((o_max o <= 0)%Z -> none) /\
+    ((1 <= o_max o)%Z -> mn == mx -> obs_close tolv [mn] major /\ forall m, minor = Some m -> obs_close tolv [mn] m) /\
+    ((1 <= o_max o)%Z -> ~ mn == mx ->
+    a < b /\ (level_bounds o = None -> none) /\
+    forall lo hi, level_bounds o = Some (lo, hi) ->
+    (exists l L, (lo <= l <= hi)%Z /\ lin_level_list base eb a b l L /\ (Z.of_nat (length L) <= o_max o)%Z /\
+    obs_close tolv L major /\
+    (forall l' L', (lo <= l' < l)%Z -> lin_level_list base eb a b l' L' -> (o_max o < Z.of_nat (length L'))%Z) /\
+    (forall m, minor = Some m -> exists Lm, lin_level_list base eb a b (l - 1) Lm /\ obs_close tolv Lm m))
+    \/ (none /\ forall l L, (lo <= l <= hi)%Z -> lin_level_list base eb a b l L -> (o_max o < Z.of_nat (length L))%Z)))%Q) /\
+  (forall (base eb : Z) (mn mx : Q) (l : Z) (L : list Q), lin_level_list base eb mn mx l L <->
+   (StronglySorted Qlt L /\ forall v, In v L <-> exists k : Z, v = inject_Z k * lin_spacing base eb l /\ in_range mn mx v)%Q) /\
+  (forall (tolv : Q -> Q) (base eb : Z) (mn mx : Q) (lv : levobs), lin_level_spec tolv base eb mn mx lv <->
+   (exists L, lin_level_list base eb mn mx (lv_level lv) L /\
+    let c := Z.of_nat (length L) in
+    ((c <= 1000)%Z -> lv_count lv = c) /\
+    ((1000 < c)%Z -> (Z.abs (lv_count lv - Z.min c MAXINT) <= 2 + c / 1000000000)%Z) /\
+    ((lv_st lv = 0%Z /\ obs_close tolv L (lv_ticks lv) /\ Z.of_nat (length (lv_ticks lv)) = c)
+    \/ (lv_st lv = 3%Z /\ (1000 < c)%Z /\ lv_ticks lv = [])))%Q) /\
+  (forall (tolv : Q -> Q) (base eb : Z) (o : tickopts) (mn mx : Q) (st : Z) (a b : xreal), lin_nice_spec tolv base eb o mn mx st a b <->
+   (st = 0%Z /\ exists ao bo x y, a = XFin ao /\ b = XFin bo /\ Qabs (ao - x) <= tolv x /\ Qabs (bo - y) <= tolv y /\
+    let smn := fst (lin_start mn mx) in let smx := snd (lin_start mn mx) in
+    smn < smx /\ x <= smn /\ smx <= y /\
+    (forall l, lin_nice_level base eb o smn smx l ->
+    let sp := lin_spacing base eb l in
+    smn - x < sp /\ y - smx < sp /\
+    (x == smn \/ exists k : Z, x = inject_Z k * sp) /\ (y == smx \/ exists k : Z, y = inject_Z k * sp)) /\
+    ((forall l, ~ lin_nice_level base eb o smn smx l) -> x == smn /\ y == smx))%Q) /\
+  (forall (base eb : Z) (o : tickopts) (smn smx : Q) (l : Z), lin_nice_level base eb o smn smx l <->
+   (exists lo hi, level_bounds o = Some (lo, hi) /\ (1 <= o_max o)%Z /\ (lo <= l <= hi)%Z /\
+    (lin_out_count base eb smn smx l <= o_max o)%Z /\
+    forall l', (lo <= l' < l)%Z -> (o_max o < lin_out_count base eb smn smx l')%Z)%Q) /\
+  (forall (base eb : Z) (mn mx : Q) (l : Z), lin_out_count base eb mn mx l =
+   (let sp := lin_spacing base eb l in let sl := (mx - mn) * slack_factor in
+    (Qceiling ((mx - sl) / sp) - Qfloor ((mn + sl) / sp) + 1)%Z)%Q) /\
+  (forall (base eb : Z) (o : tickopts) (smn smx : Q), lin_nice_rep_spec base eb o smn smx <->
+   (exists l, lin_nice_level base eb o smn smx l /\
+    let sp := lin_spacing base eb l in let sl := (smx - smn) * slack_factor in
+    Qabs (inject_Z (Qfloor ((smn + sl) / sp)) * sp) < qpow 2 1024 /\ Qabs (inject_Z (Qceiling ((smx - sl) / sp)) * sp) < qpow 2 1024)%Q) /\
+  (forall (c : sccase), lc_tolv c =
+   (let w := Qabs (sc_mx c - sc_mn c) in let w := if Qeqb w 0 then 1 else w in
+    fun v : Q => e9 * Qabs v + e9 * w)%Q) /\
+  (forall (c : sccase), log_case_ok c <->
+   (log_case_gen G_exact L_exact c)%Q) /\
+  (forall (c : sccase), log_case_borderline c <->
+   (log_case_gen G_border L_border c)%Q) /\
+  (forall (G : bool -> bool -> Prop -> Prop) (Lw : bool -> Prop -> Prop) (c : sccase), log_case_gen G Lw c <->
+   (let ob := sc_ob c in let base := sc_base c in let mn := sc_mn c in let mx := sc_mx c in
+    let o := sc_o c in let no := so_no ob in let tolv := lg_tolv in
+    exists ao bo, so_nmin ob = XFin ao /\ so_nmax ob = XFin bo /\
+    (* the observed new domain is a Log domain again *)
+    (ao <= bo /\ 0 < ao * bo) /\
+    let E20 := log_levels_E tolv base mn mx (so_levels ob) in
+    let E30 := log_nice_E tolv no base mn mx (so_nst ob) (XFin ao) (XFin bo) in
+    let E36 := log_ticks_E tolv no base ao bo (so_st3 ob) (so_major3 ob) None in
+    let E37 := log_nice_E tolv no base ao bo (so_nst2 ob) (so_nmin2 ob) (so_nmax2 ob) in
+    let bl := negb E30 || negb E36 || negb E37 in
+    (* 10: Ticks(o) *)
+    G (log_ticks_E tolv o base mn mx (so_st ob) (so_major ob) (Some (so_minor ob)))
+    (log_ticks_A tolv o base mn mx (so_st ob) (so_major ob) (Some (so_minor ob)))
+    (log_ticks_spec tolv base o mn mx (so_st ob) (so_major ob) (Some (so_minor ob))) /\
+    (* 20: CountTicks(l), TicksAtLevel(l) for every recorded level *)
+    G E20 (log_levels_A tolv base mn mx (so_levels ob)) (Forall (log_level_spec tolv base mn mx) (so_levels ob)) /\
+    (* 21 *)
+    Lw (negb E20) (forall l1 a b l2, so_levels ob = l1 ++ a :: b :: l2 -> (lv_level a <= lv_level b)%Z -> (lv_count b <= lv_count a)%Z) /\
+    (* 30: Nice(o') *)
+    G E30 (log_nice_A tolv no base mn mx (so_nst ob) (XFin ao) (XFin bo)) (log_nice_spec tolv base no mn mx (so_nst ob) (XFin ao) (XFin bo)) /\
+    (* 35 *)
+    (ao <= mn /\ mx <= bo) /\
+    (* 36, 37: Ticks(o') and Nice(o') on the observed new domain *)
+    G E36 (log_ticks_A tolv no base ao bo (so_st3 ob) (so_major3 ob) None) (log_ticks_spec tolv base no ao bo (so_st3 ob) (so_major3 ob) None) /\
+    G E37 (log_nice_A tolv no base ao bo (so_nst2 ob) (so_nmin2 ob) (so_nmax2 ob))
+    (log_nice_spec tolv base no ao bo (so_nst2 ob) (so_nmin2 ob) (so_nmax2 ob)) /\
+    (* 40 *)
+    Lw bl ((3 <= o_max no)%Z -> so_nst2 ob = 0%Z /\ exists a2 b2, so_nmin2 ob = XFin a2 /\ so_nmax2 ob = XFin b2 /\
+    Qabs (a2 - ao) <= tolv ao /\ Qabs (b2 - bo) <= tolv bo) /\
+    (* 41 *)
+    Lw bl ((3 <= o_max no)%Z -> log_nice_rep_spec base no mn mx -> exists f rest t0 tl, so_major3 ob = f :: rest /\ f = XFin t0 /\
+    last (so_major3 ob) f = XFin tl /\ Qabs (t0 - ao) <= tolv ao /\ Qabs (tl - bo) <= tolv bo) /\
+    (* 43 *)
+    (~ ao == bo -> exists p q, so_map0 ob = XFin p /\ so_map1 ob = XFin q /\ Qabs p <= e12 /\ Qabs (q - 1) <= e12) /\
+    (* 45 *)
+    Lw bl ((3 <= o_max no)%Z -> log_nice_rep_spec base no mn mx ->
+    log_law45_spec (lf_neg mn mx) (lf_emin mn mx) (lf_emax mn mx) (lf_emin ao bo) (lf_emax ao bo) (so_major3 ob)))%Q) /\
+  (forall (tolv : Q -> Q) (b : Z) (o : tickopts) (mn mx : Q) (st : Z) (major : list xreal) (minor : option (list xreal)), log_ticks_spec tolv b o mn mx st major minor <->
+   (st = 0 /\
+    let none := major = [] /\ (forall m, minor = Some m -> m = []) in
+    (o_max o <= 0 -> none) /\
+    (1 <= o_max o -> (mn == mx)%Q -> obs_close tolv [mn] major /\ forall m, minor = Some m -> obs_close tolv [mx] m) /\
+    (1 <= o_max o -> ~ (mn == mx)%Q ->
+    let e := log_e b mn mx in let neg := lf_neg mn mx in let emin := lf_emin mn mx in let emax := lf_emax mn mx in
+    (level_bounds o = None -> none) /\
+    forall lo hi, level_bounds o = Some (lo, hi) -> 2 <= b -> le_in_lo e <= le_in_hi e + 1 -> log_count e false 0 <= MAXINT ->
+    (exists l L n, lo <= l <= hi /\ log_level_ok b e neg emin emax l L n /\ n <= o_max o /\ obs_close tolv L major /\
+    (forall l' L' n', lo <= l' < l -> log_level_ok b e neg emin emax l' L' n' -> o_max o < n') /\
+    (forall m, minor = Some m -> exists Lm nm, log_level_ok b e neg emin emax (l - 1) Lm nm /\ obs_close tolv Lm m))
+    \/ (none /\ forall l L n, lo <= l <= hi -> log_level_ok b e neg emin emax l L n -> o_max o < n)))%Z) /\
+  (forall (b : Z) (e : logexp) (neg : bool) (emin emax : Q) (l : Z) (L : list Q) (n : Z), log_level_ok b e neg emin emax l L n <->
+   (if l <? 0 then n = MAXINT /\ L = log_ticks_at' b e neg emin emax false l
+    else exists P, StronglySorted Qlt P /\
+    (forall v, In v P <-> exists k, v = qpow b (k * 2 ^ l) /\ le_in_lo e <= k * 2 ^ l <= le_in_hi e) /\
+    L = (if neg then neg_rev P else P) /\ n = Z.of_nat (length P))%Z) /\
+  (forall (tolv : Q -> Q) (b : Z) (mn mx : Q) (lv : levobs), log_level_spec tolv b mn mx lv <->
+   (let e := log_e b mn mx in
+    lv_st lv = 0 /\ (0 <= lv_level lv -> le_in_lo e <= le_in_hi e + 1 -> lv_count lv = Z.of_nat (length (lv_ticks lv))) /\
+    (2 <= b -> le_in_lo e <= le_in_hi e + 1 ->
+    exists L n, log_level_ok b e (lf_neg mn mx) (lf_emin mn mx) (lf_emax mn mx) (lv_level lv) L n /\ lv_count lv = n /\ obs_close tolv L (lv_ticks lv)))%Z) /\
+  (forall (tolv : Q -> Q) (b : Z) (o : tickopts) (mn mx : Q) (st : Z) (a c : xreal), log_nice_spec tolv b o mn mx st a c <->
+   (st = 0 /\ exists ao bo x y, a = XFin ao /\ c = XFin bo /\ (Qabs (ao - x) <= tolv x)%Q /\ (Qabs (bo - y) <= tolv y)%Q /\
+    let e := log_e b mn mx in
+    ((mn <= mx)%Q -> (x <= mn)%Q /\ (mx <= y)%Q) /\
+    ((mn == mx)%Q -> x = mn /\ y = mx) /\
+    ((forall lo hi, level_bounds o = Some (lo, hi) -> nonincreasing (log_count e true) lo hi) ->
+    (o_max o < 1 \/ level_bounds o = None \/
+    exists lo hi, level_bounds o = Some (lo, hi) /\ forall l, lo <= l <= hi -> o_max o < log_count e true l) -> x = mn /\ y = mx) /\
+    ((0 < mn)%Q -> (mn < mx)%Q ->
+    (x = mn \/ exists n, x = qpow b n /\ f64_pos_ok x = true) /\ (y = mx \/ exists n, y = qpow b n /\ f64_pos_ok y = true)))%Z) /\
+  (forall (b : Z) (o : tickopts) (mn mx : Q), log_nice_rep_spec b o mn mx <->
+   (~ (mn == mx)%Q /\ exists lo hi l, level_bounds o = Some (lo, hi) /\ 1 <= o_max o /\
+    let e := log_e b mn mx in
+    nonincreasing (log_count e true) lo hi /\ lo <= l <= hi /\ log_count e true l <= o_max o /\
+    (forall l', lo <= l' < l -> o_max o < log_count e true l') /\
+    let f := le_out_lo e / 2 ^ l in let la := cdiv (le_out_hi e) (2 ^ l) in
+    log_end_ok b (2 ^ l) f (qpow b (f * 2 ^ l)) = true /\ log_end_ok b (2 ^ l) la (qpow b (la * 2 ^ l)) = true)%Z) /\
+  (forall (neg : bool) (emin emax emin3 emax3 : Q) (major3 : list xreal), log_law45_spec neg emin emax emin3 emax3 major3 <->
+   (exists t, major3 = map XFin t /\
+    let t' := if neg then rev (map Qopp t) else t in
+    exists t0 t1 r u1 u0 r', t' = t0 :: t1 :: r /\ rev t' = u1 :: u0 :: r' /\
+    emin * t0 <= emin3 * t1 * (1 + e9) /\ emax3 * u0 <= emax * u1 * (1 + e9))%Q) /\
+  (forall (base : Z) (mn mx : Q), log_e base mn mx =
+   (log_exps base (lf_emin mn mx) (lf_emax mn mx))%Q) /\
+  (forall (mn mx : Q), lf_neg mn mx =
+   (fst (fst (log_fold mn mx)))%Q) /\
+  (forall (mn mx : Q), lf_emin mn mx =
+   (snd (fst (log_fold mn mx)))%Q) /\
+  (forall (mn mx : Q), lf_emax mn mx =
+   (snd (log_fold mn mx))%Q) /\
+  (lg_tolv =
+   (fun v : Q => e9 * Qabs v)%Q) /\
+  (* the minor ticks: TicksAtLevel(l < 0) on the folded positive domain [emin, emax] *)
+  (forall b e emin emax ro l v, (2 <= b)%Z -> (l < 0)%Z ->
+     (In v (log_ticks_pos b e emin emax ro l) <->
+      exists k j, (le_out_lo e <= k <= le_out_hi e)%Z /\ (1 <= j <= b - 1)%Z /\ v = inject_Z j * qpow b k /\ emin <= v /\ v <= emax)) /\
+  (* the hypothesis "le_in_lo e <= le_in_hi e + 1" of the Log readings holds on every Log domain *)
+  (forall base mn mx, log_domain base mn mx -> (le_in_lo (log_e base mn mx) <= le_in_hi (log_e base mn mx) + 1)%Z).
+Proof. exact case_meaning_scales. Qed.
+Print Assumptions C17_check_meaning_scales.
+
+(* THE BORDERLINE RULE (verdict code 1).  Linear: the admissible set is consulted only after the exact
+   comparison failed; it takes each floor/ceil whose argument q is within 4e-15 (1 + |q|) of an integer n
+   (near_round) either way ({n-1, n} resp. {n, n+1}).  Outside that window the admissible set is the
+   singleton exact outcome: a per-level observation, Ticks(o) with its minor ticks, and Nice(o) that pass
+   the admissible comparison pass the exact one when no decision is inside the window - so a borderline
+   verdict of these groups never arises there (per level: for an observed count that is an int64 value), and
+   a borderline per-level group names a level with a decision inside the window.  For a whole Linear case: judge_linear returns code 1 ONLY IF a decision -
+   of Ticks on the ordered domain, of a per-level observation, of Nice on the start domain, of Ticks or
+   Nice on the observed new domain - is inside the window.  Log: the admissible set takes each undecided (N_border) slack decision of
+   log_exps either way and treats candidate minor ticks within 1e-12 of a domain end as optional; when no
+   slack decision is undecided (le_amb = false) Nice, TicksAtLevel/CountTicks at levels >= 0 and Ticks
+   whose levels are >= 0 (no minor ticks involved) that pass the admissible comparison pass the exact one;
+   for a whole Log case: judge_log returns code 1 ONLY IF a slack decision of the given or of the observed
+   new domain is undecided or minor ticks are involved (Ticks(o) at a level <= 0, a recorded level below 0,
+   Ticks after Nice at a level below 0). *)
+Theorem C17_check_borderline_window :
+  (forall base eb mn mx tolv lv, lin_amb_level base eb mn mx false (lv_level lv) = false -> (lv_count lv <= MAXINT)%Z ->
+     lin_level_adm base eb mn mx tolv lv = true -> lin_level_exact base eb mn mx tolv lv = true) /\
+  (forall base eb mn mx tolv levels, (forall lv, In lv levels -> (lv_count lv <= MAXINT)%Z) ->
+     forallb (lin_level_exact base eb mn mx tolv) levels = false ->
+     forallb (fun lv => lin_level_exact base eb mn mx tolv lv || lin_level_adm base eb mn mx tolv lv) levels = true ->
+     exists lv, In lv levels /\ lin_level_exact base eb mn mx tolv lv = false /\ lin_level_adm base eb mn mx tolv lv = true /\
+                lin_amb_level base eb mn mx false (lv_level lv) = true) /\
+  (forall base eb o tolv, lin_ebase base = Some eb -> forall a b major mi, a < b ->
+     (forall l, lin_amb_level base eb a b false l = false) ->
+     lin_ticks_adm o base eb a b tolv (lin_search o base eb a b false) major (Some mi) = true ->
+     exists l, lin_search o base eb a b false = FL_ok l /\ (1 <= o_max o)%Z /\
+       close_list tolv (lin_ticks_at base eb a b false l) major = true /\
+       close_list tolv (lin_ticks_at base eb a b false (l - 1)) mi = true) /\
+  (forall base eb o tolv, lin_ebase base = Some eb -> forall smn smx ao bo, smn < smx ->
+     (forall l, lin_amb_level base eb smn smx true l = false) ->
+     lin_nice_adm o base eb smn smx tolv (lin_search o base eb smn smx true) ao bo = true ->
+     let xy := lin_nice_from base eb smn smx (lin_search o base eb smn smx true) in
+     within (tolv (fst xy)) (fst xy) ao && within (tolv (snd xy)) (snd xy) bo = true) /\
+  (forall q n, near_round q = Some n ->
+     Qabs (q - inject_Z n) <= (4 # 1000000000000000) * (1 + Qabs q) /\ floor_adm q = [(n - 1)%Z; n] /\ ceil_adm q = [n; (n + 1)%Z]) /\
+  (forall q, near_int q = false -> floor_adm q = [qfl q] /\ ceil_adm q = [qcl q]) /\
+  (* Log: no slack decision of log_exps undecided *)
+  (forall tolv o base mn mx st a b, le_amb (log_e base mn mx) = false ->
+     log_nice_A tolv o base mn mx st a b = true -> log_nice_E tolv o base mn mx st a b = true) /\
+  (forall base mn mx tolv lv, le_amb (log_e base mn mx) = false -> (0 <= lv_level lv)%Z ->
+     existsb (log_level_adm1 base (lf_neg mn mx) (lf_emin mn mx) (lf_emax mn mx) tolv lv) (log_adm base mn mx) = true ->
+     log_level_exact base (log_e base mn mx) (lf_neg mn mx) (lf_emin mn mx) (lf_emax mn mx) tolv lv = true) /\
+  (forall tolv o base mn mx st major minor l, le_amb (log_e base mn mx) = false ->
+     log_search o (log_e base mn mx) false = FL_ok l -> (match minor with Some _ => 1 | None => 0 end <= l)%Z ->
+     log_ticks_A tolv o base mn mx st major minor = true -> log_ticks_E tolv o base mn mx st major minor = true) /\
+  (* a whole Linear case: no borderline verdict without a decision inside the window *)
+  (forall c t p d eb, judge_linear c = verdict 1 t p d -> lin_ebase (sc_base c) = Some eb ->
+     exists ao bo, so_nmin (sc_ob c) = XFin ao /\ so_nmax (sc_ob c) = XFin bo /\
+     let base := sc_base c in let mn := sc_mn c in let mx := sc_mx c in
+     ~ ((forall l, lin_amb_level base eb (fst (lin_order mn mx)) (snd (lin_order mn mx)) false l = false) /\
+        (forall l, lin_amb_level base eb mn mx false l = false) /\
+        (forall lv, In lv (so_levels (sc_ob c)) -> (lv_count lv <= MAXINT)%Z) /\
+        (forall l, lin_amb_level base eb (fst (lin_start mn mx)) (snd (lin_start mn mx)) true l = false) /\
+        (forall l, lin_amb_level base eb (fst (lin_order ao bo)) (snd (lin_order ao bo)) false l = false) /\
+        (forall l, lin_amb_level base eb (fst (lin_start ao bo)) (snd (lin_start ao bo)) true l = false))) /\
+  (forall base eb o tolv, lin_ebase base = Some eb -> forall a b major, a < b ->
+     (forall l, lin_amb_level base eb a b false l = false) ->
+     lin_ticks_adm o base eb a b tolv (lin_search o base eb a b false) major None = true ->
+     exists l, lin_search o base eb a b false = FL_ok l /\ (1 <= o_max o)%Z /\
+       close_list tolv (lin_ticks_at base eb a b false l) major = true) /\
+  (* a whole Log case: no borderline verdict without an undecided slack decision or minor ticks *)
+  (forall c t p d, judge_log c = verdict 1 t p d ->
+     exists ao bo, so_nmin (sc_ob c) = XFin ao /\ so_nmax (sc_ob c) = XFin bo /\
+     let base := sc_base c in let mn := sc_mn c in let mx := sc_mx c in let ob := sc_ob c in
+     ~ (le_amb (log_e base mn mx) = false /\ le_amb (log_e base ao bo) = false /\
+        (forall l, log_search (sc_o c) (log_e base mn mx) false = FL_ok l -> (1 <= l)%Z) /\
+        (forall lv, In lv (so_levels ob) -> (0 <= lv_level lv)%Z) /\
+        (forall l, log_search (so_no ob) (log_e base ao bo) false = FL_ok l -> (0 <= l)%Z))).
+Proof. exact borderline_window. Qed.
+Print Assumptions C17_check_borderline_window.
+
+(* Non-vacuity: real case lines (harness output on /repo; floats are IEEE-754 bit patterns) are accepted
+   with code 0, a real Log line with an undecided slack decision and a real Linear line with a floor decision
+   inside the window with code 1, and lines with one observed number changed are rejected. *)
+End CheckSound.
+Section CheckExamples.
+Local Open Scope Z_scope.
+Example C17_check_ok_examples :
+  let ok line := exists tag, check_C17 line = verdict 0 tag (-1) [] in
+  let border line := exists tag pos, check_C17 line = verdict 1 tag pos [] in
+  let bad line := exists tag pos diag, check_C17 line = verdict 2 tag pos diag in
+  (* FindLevel: table 9 9 4 2 2 0 on levels -2..3, Max 3: (ok, level) = (1, 1) *)
+  ok [17; 0; 3; 0; 0; 0; -2; 6; 9; 9; 4; 2; 2; 0; 9; 0; 1; 1] /\
+  (* ... reported level 2 *)
+  bad [17; 0; 3; 0; 0; 0; -2; 6; 9; 9; 4; 2; 2; 0; 9; 0; 1; 2] /\
+  (* ... reported failure *)
+  bad [17; 0; 3; 0; 0; 0; -2; 6; 9; 9; 4; 2; 2; 0; 9; 0; 0; 0] /\
+  (* Linear [0.3, 2.7] Max 4, levels -2..3: major 1 2, minor 0.5 .. 2.5, levels 0 and 1, Nice -> [0, 3], Ticks after Nice 0 1 2 3 *)
+  ok [17; 1; 0; 4599075939470750515; 4613262278296967578; 4; -2; 3; 0; 2; 4607182418800017408; 4611686018427387904; 5; 4602678819172646912; 
+      4607182418800017408; 4609434218613702656; 4611686018427387904; 4612811918334230528; 2; 0; 2; 0; 2; 4607182418800017408; 4611686018427387904; 1; 0; 0; 
+      0; 4; -2; 3; 0; 0; 4613937818241073152; 0; 4607182418800017408; 0; 0; 4613937818241073152; 0; 4; 0; 4607182418800017408; 4611686018427387904; 
+      4613937818241073152] /\
+  (* ... major tick 2 reported as 2.5 *)
+  bad [17; 1; 0; 4599075939470750515; 4613262278296967578; 4; -2; 3; 0; 2; 4607182418800017408; 4612811918334230528; 5; 4602678819172646912; 
+      4607182418800017408; 4609434218613702656; 4611686018427387904; 4612811918334230528; 2; 0; 2; 0; 2; 4607182418800017408; 4611686018427387904; 1; 0; 0; 
+      0; 4; -2; 3; 0; 0; 4613937818241073152; 0; 4607182418800017408; 0; 0; 4613937818241073152; 0; 4; 0; 4607182418800017408; 4611686018427387904; 
+      4613937818241073152] /\
+  (* ... Nice reported [0, 4] *)
+  bad [17; 1; 0; 4599075939470750515; 4613262278296967578; 4; -2; 3; 0; 2; 4607182418800017408; 4611686018427387904; 5; 4602678819172646912; 
+      4607182418800017408; 4609434218613702656; 4611686018427387904; 4612811918334230528; 2; 0; 2; 0; 2; 4607182418800017408; 4611686018427387904; 1; 0; 0; 
+      0; 4; -2; 3; 0; 0; 4616189618054758400; 0; 4607182418800017408; 0; 0; 4613937818241073152; 0; 4; 0; 4607182418800017408; 4611686018427387904; 
+      4613937818241073152] /\
+  (* ... CountTicks(0) reported as 3 *)
+  bad [17; 1; 0; 4599075939470750515; 4613262278296967578; 4; -2; 3; 0; 2; 4607182418800017408; 4611686018427387904; 5; 4602678819172646912; 
+      4607182418800017408; 4609434218613702656; 4611686018427387904; 4612811918334230528; 2; 0; 3; 0; 2; 4607182418800017408; 4611686018427387904; 1; 0; 0; 
+      0; 4; -2; 3; 0; 0; 4613937818241073152; 0; 4607182418800017408; 0; 0; 4613937818241073152; 0; 4; 0; 4607182418800017408; 4611686018427387904; 
+      4613937818241073152] /\
+  (* Linear with Base = 1: Ticks, Nice, Nice, Ticks all panic *)
+  ok [17; 1; 1; 13815962792862112832; 0; 2; 0; 0; 2; 0; 0; 0; 2; 0; 0; 2; 0; 0; 4607182418800017408; 4607182418800017408; 2; 0; 0; 2; 0] /\
+  (* Log base 10 [3, 20000] Max 3: major 100 10000, minor 10 .. 10000, Nice -> [1, 1e8] *)
+  ok [17; 2; 10; 4613937818241073152; 4671226772094713856; 3; 0; 0; 0; 2; 4636737291354636288; 4666723172467343360; 4; 4621819117588971520; 
+      4636737291354636288; 4652007308841189376; 4666723172467343360; 2; 0; 4; 0; 4; 4621819117588971520; 4636737291354636288; 4652007308841189376; 
+      4666723172467343360; 1; 2; 0; 2; 4636737291354636288; 4666723172467343360; 3; 0; 0; 0; 4607182418800017408; 4726483295884279808; 0; 
+      4607182418800017408; 0; 4607182418800017408; 4726483295884279808; 0; 3; 4607182418800017408; 4666723172467343360; 4726483295884279808] /\
+  (* ... Nice reported [1, 1e7] *)
+  bad [17; 2; 10; 4613937818241073152; 4671226772094713856; 3; 0; 0; 0; 2; 4636737291354636288; 4666723172467343360; 4; 4621819117588971520; 
+      4636737291354636288; 4652007308841189376; 4666723172467343360; 2; 0; 4; 0; 4; 4621819117588971520; 4636737291354636288; 4652007308841189376; 
+      4666723172467343360; 1; 2; 0; 2; 4636737291354636288; 4666723172467343360; 3; 0; 0; 0; 4607182418800017408; 4711630319722168320; 0; 
+      4607182418800017408; 0; 4607182418800017408; 4726483295884279808; 0; 3; 4607182418800017408; 4666723172467343360; 4726483295884279808] /\
+  (* ... first major tick 10 instead of 100 *)
+  bad [17; 2; 10; 4613937818241073152; 4671226772094713856; 3; 0; 0; 0; 2; 4621819117588971520; 4666723172467343360; 4; 4621819117588971520; 
+      4636737291354636288; 4652007308841189376; 4666723172467343360; 2; 0; 4; 0; 4; 4621819117588971520; 4636737291354636288; 4652007308841189376; 
+      4666723172467343360; 1; 2; 0; 2; 4636737291354636288; 4666723172467343360; 3; 0; 0; 0; 4607182418800017408; 4726483295884279808; 0; 
+      4607182418800017408; 0; 4607182418800017408; 4726483295884279808; 0; 3; 4607182418800017408; 4666723172467343360; 4726483295884279808] /\
+  (* Linear [0, 1/(1+1e-10)] Max 8, levels -2..3: (max + slack)/spacing is within 1e-16 of the integer 1 (resp. 2, 10), the float floor lands on the other side: accepted as borderline *)
+  border [17; 1; 0; 0; 4607182418799116688; 8; -2; 3; 0; 3; 0; 4602678819172646912; 4607182418800017408; 11; 0; 4591870180066957722; 4596373779694328218; 
+      4599075939470750515; 4600877379321698714; 4602678819172646912; 4603579539098121011; 4604480259023595110; 4605380978949069210; 4606281698874543309; 
+      4607182418800017408; 1; 0; 2; 0; 2; 0; 4607182418800017408; 8; -2; 3; 0; 0; 4607182418800017408; 0; 4607182418800017408; 0; 0; 4607182418800017408; 
+      0; 3; 0; 4602678819172646912; 4607182418800017408] /\
+  (* Log base 10 [-0.08, -0.007], a slack decision of log_exps undecided: accepted as borderline *)
+  border [17; 2; 10; 13813801065040974971; 13798092509540706681; 7; -1; -2; 0; 0; 0; 5; -1; 9223372036854775807; 0; 11; 13813801065040974971; 
+      13813080489100595692; 13812179769175121593; 13810738617294363034; 13809297465413604475; 13807676169547751096; 13804793865786233979; 
+      13800290266158863483; 13799713805406560060; 13799137344654256636; 13798092509540706681; 0; 1; 0; 1; 13800290266158863483; 1; 1; 0; 1; 
+      13800290266158863483; 2; 0; 0; 0; 3; 0; 0; 0; 7; -1; -2; 0; 13813801065040974971; 13798092509540706681; 0; 4607182418800017408; 0; 
+      13813801065040974971; 13798092509540706681; 0; 0].
+Proof.
+  cbv zeta. repeat split; vm_compute; repeat eexists.
+Qed.
+End CheckExamples.
